@@ -46,6 +46,7 @@ partial def parseP : List String → Option (P × List String)
     let (a, r1) ← parseSc r
     let (b, r2) ← parseSc r1
     pure (.cmp op a b, r2)
+  | "flag" :: n :: r => some (.flag n, r)
   | "isnull" :: n :: r => do
     let (a, r1) ← parseSc r
     pure (.isNull a (n == "1"), r1)
